@@ -197,25 +197,81 @@ def gen_case(rng, quick=True):
                     have.add(tuple(sorted(f)))
                     faces.append(list(f))
     dim = None if rng.random() < 0.85 else rng.randint(0, 3)
-    vdim = 3
+    # coordinates in quarter units; points of width 3, 2 (padded with z=0 by every route) or, rarely, 1
+    jitter = rng.random() < 0.3
+    verts = [[4 * x + (rng.randint(0, 3) if jitter else 0) for x in v] for v in verts]
+    vints = rng.random() < 0.4
+    width = rng.choice([3] * 6 + [2] * 3 + [1])
+    mixed = width == 2 and rng.random() < 0.2
+    verts = [v[:(3 if mixed and rng.random() < 0.5 else width)] for v in verts]
+    uniform = len({len(v) for v in verts}) <= 1
+    in_range = all(0 <= x < nv for rows in (edges, faces, cells) for r in rows for x in r)
     routes = ["list", "tuple", "numpy"]
     if rng.random() < 0.3:
         routes.append("append")
     regular = all(len({len(r) for r in rows}) <= 1 for rows in (faces, cells)) and nv > 0
-    if regular and not eattrs and dim is None and rng.random() < 0.6:
+    if regular and uniform and not eattrs and dim is None and rng.random() < 0.6:
         routes.append("from_arrays")
-        if rng.random() < 0.4 and not cells:
-            vdim = rng.choice([1, 2])
-            verts = [v[:vdim] for v in verts]
-            routes = ["from_arrays"]   # raw containers are given 3-D points; only from_arrays pads
+    if width == 1 and not mixed:
+        # 1-D points: only from_arrays promises to pad them (raw containers keep them, see C02_vertices_3d)
+        routes = [r for r in routes if r == "from_arrays"] or ["list"]
+    if uniform and in_range and not cells and not eattrs and nv > 0 and all(len(f) >= 3 for f in faces):
+        for ext in ("obj", "off"):
+            if rng.random() < 0.3:
+                routes.append("file2d_" + ext)
+    if uniform and width == 3 and in_range and nv > 0 and rng.random() < 0.25:
+        routes.append("save_" + rng.choice(["obj", "off", "mesh", "geogram_ascii"]))
     rewraps = rng.choice([0, 1, 1, 2])
-    edits = gen_edits(rng, rewraps, len(verts), faces, cells) if vdim == 3 else [[] for _ in range(rewraps)]
-    case = {"edits": edits, "kind": kind, "verts": verts, "edges": edges, "faces": faces, "cells": cells, "eattrs": eattrs,
-            "cfg": cfg, "dim": dim, "routes": routes, "rewraps": rewraps, "malformed": malformed or not wf,
+    edits = gen_edits(rng, rewraps, len(verts), faces, cells)
+    case = {"edits": edits, "kind": kind, "verts": verts, "vints": vints, "edges": edges, "faces": faces, "cells": cells,
+            "eattrs": eattrs, "cfg": cfg, "dim": dim, "routes": routes, "rewraps": rewraps, "malformed": malformed or not wf,
             "script": []}
-    if wf and cfg == [True, True]:
-        case["script"] = gen_script(rng, case)
+    quiet = all(e[0] in ("clear_fc", "clear_cc", "clear_cf") for es in edits for e in es)
+    case["script"] = gen_script(rng, case, connectivity=bool(wf and cfg == [True, True] and quiet and width != 1))
     return case
+
+
+SAFE_OPS = ["copy", "merge", "attr_edges", "attr_faces", "attr_vertices", "save", "row_face", "row_cell", "row_edge"]
+SURF_Q = ["face_to_vertices", "face_to_edges", "vertex_to_faces", "vertex_to_vertices", "vertex_to_edges", "face_to_faces",
+          "in_face_index", "edge_to_vertices", "is_vertex_on_border", "boundary_edges", "interior_edges",
+          "boundary_vertices", "is_triangular", "is_quad"]
+VOL_Q = ["cell_to_face", "cell_to_vertex", "cell_to_edge", "vertex_to_cell", "face_to_cells", "edge_to_cell", "in_cell_index",
+         "in_cell_face_index", "is_tetrahedral", "boundary_faces", "face_to_vertices", "vertex_to_vertices", "face_to_edges"]
+LINE_Q = ["vertex_to_vertices", "vertex_to_edges", "edge_to_vertices"]
+
+
+def gen_script(rng, case, connectivity):
+    """later behaviour on the finished mesh: copies, merges, attributes, save/load and the rows the containers hand back
+    (always); connectivity queries (well-formed inputs, both completion switches on, no structural edit).  Index arguments
+    are reduced modulo the container sizes by the driver."""
+    s = []
+    for _ in range(rng.randint(3, 5)):
+        op = rng.choice(SAFE_OPS)
+        s.append([op, rng.randrange(64), rng.randrange(4)] if op.startswith("attr_") else [op, rng.randrange(64)]
+                 if op in ("save", "row_face", "row_cell", "row_edge") else [op])
+    if connectivity:
+        pool = VOL_Q if case["cells"] else SURF_Q if case["faces"] else LINE_Q if case["edges"] else []
+        tet = all(len(c) == 4 for c in case["cells"])
+        for _ in range(rng.randint(8, 14) if pool else 0):
+            q = rng.choice(pool)
+            if q == "cell_to_face" and not tet:
+                q = "cell_to_vertex"
+            s.append([q, rng.randrange(64), rng.randrange(64)])
+        if case["cells"] and tet and rng.random() < 0.7:
+            s.append(["cell_to_cell", rng.randrange(64)])
+        # keyed lookups with arguments taken from the input rows
+        for _ in range(rng.randint(1, 3)):
+            if case["faces"] and not case["cells"]:
+                F = rng.choice(case["faces"])
+                s.append(rng.choice([["edge_id", F[0], F[1 % len(F)]], ["face_id"] + list(F), ["edge_to_faces", F[0], F[1 % len(F)]]]))
+            elif case["cells"]:
+                C = rng.choice(case["cells"])
+                s.append(["edge_id", C[0], C[1]])
+            elif case["edges"]:
+                e = rng.choice(case["edges"])
+                s.append(["edge_id", e[0], e[1]])
+    rng.shuffle(s)
+    return s
 
 
 CLEAR3 = [["clear_fc"], ["clear_cc"], ["clear_cf"]]
@@ -239,7 +295,7 @@ def gen_edits(rng, rewraps, nv, faces, cells):
             for _ in range(rng.randint(1, 3)):
                 t = rng.choice(["add", "add", "set", "pop", "vertex"])
                 if t == "vertex":
-                    es.append(["add_vertex", [rng.randint(0, 3), rng.randint(0, 3), rng.randint(0, 3)]])
+                    es.append(["add_vertex", [rng.randint(0, 12), rng.randint(0, 12), rng.randint(0, 12)]])
                     nv += 1
                 elif t == "pop":
                     es.append(["pop_cell"])
@@ -252,7 +308,7 @@ def gen_edits(rng, rewraps, nv, faces, cells):
             for _ in range(rng.randint(1, 3)):
                 t = rng.choice(["add", "add", "set", "pop", "vertex"])
                 if t == "vertex":
-                    es.append(["add_vertex", [rng.randint(0, 3), rng.randint(0, 3), 0]])
+                    es.append(["add_vertex", [rng.randint(0, 12), rng.randint(0, 12), 0]])
                     nv += 1
                 elif t == "pop":
                     es.append(["pop_face"])
@@ -266,7 +322,7 @@ def gen_edits(rng, rewraps, nv, faces, cells):
             for _ in range(rng.randint(1, 2)):
                 t = rng.choice(["add", "add", "vertex", "pop"])
                 if t == "vertex":
-                    es.append(["add_vertex", [rng.randint(0, 3), rng.randint(0, 3), 0]])
+                    es.append(["add_vertex", [rng.randint(0, 12), rng.randint(0, 12), 0]])
                     nv += 1
                 elif t == "pop" and not has_cells:
                     es.append(["pop_face"])
@@ -285,82 +341,3 @@ def gen_edits(rng, rewraps, nv, faces, cells):
             es = [["add_edge", [a, b]]]
         out.append(es)
     return out
-
-
-def gen_script(rng, case):
-    """Connectivity queries valid for the class the case will get (indices within range of the *input* counts)."""
-    nv = len(case["verts"])
-    s = []
-    rv = lambda: rng.randrange(nv) if nv else 0
-    if case["cells"]:
-        nc = len(case["cells"])
-        tet = all(len(c) == 4 for c in case["cells"])
-        for _ in range(6):
-            c = rng.randrange(nc)
-            q = rng.choice(["cell_to_face", "vertex_to_cell", "cell_to_edge", "face_to_cells", "in_cell_index",
-                            "edge_to_cell", "in_cell_face_index", "cell_to_cell", "is_tetrahedral", "boundary_faces",
-                            "face_id", "edge_id"])
-            if q in ("cell_to_face", "cell_to_edge"):
-                s.append(["sorted", q, c] if not tet or q == "cell_to_edge" else [q, c])
-            elif q == "vertex_to_cell":
-                s.append(["sorted", q, rv()])
-            elif q == "face_to_cells":
-                s.append(["sorted", q, rng.randrange(4)])
-            elif q == "edge_to_cell":
-                s.append(["sorted", q, rng.randrange(6)])
-            elif q == "in_cell_index":
-                s.append([q, c, rv()])
-            elif q == "in_cell_face_index":
-                s.append([q, c, rng.randrange(4)])
-            elif q == "cell_to_cell" and tet:
-                s.append(["sorted", q, c])
-            elif q in ("is_tetrahedral",):
-                s.append([q])
-            elif q == "boundary_faces":
-                s.append([q])
-            elif q == "face_id":
-                cc = case["cells"][c]
-                f = TET_T(cc)[rng.randrange(4)] if len(cc) == 4 else HEX_T(cc)[rng.randrange(6)]
-                s.append([q] + list(f))
-            elif q == "edge_id":
-                cc = case["cells"][c]
-                s.append([q, cc[0], cc[1]])
-    elif case["faces"]:
-        nf = len(case["faces"])
-        for _ in range(6):
-            f = rng.randrange(nf)
-            F = case["faces"][f]
-            q = rng.choice(["face_to_vertices", "face_to_edges", "edge_id", "vertex_to_faces", "vertex_to_vertices",
-                            "face_id", "edge_to_faces", "boundary_edges", "is_vertex_on_border", "face_to_faces",
-                            "in_face_index", "is_triangular", "ith_vertex_of_face"])
-            if q in ("face_to_vertices", "face_to_edges"):
-                s.append([q, f])
-            elif q == "face_to_faces":
-                s.append(["sorted", q, f])
-            elif q == "edge_id":
-                s.append([q, F[0], F[1 % len(F)]])
-            elif q in ("vertex_to_faces", "vertex_to_vertices"):
-                s.append(["sorted", q, rv()])
-            elif q == "face_id":
-                s.append([q] + list(F))
-            elif q == "edge_to_faces":
-                s.append([q, F[0], F[1 % len(F)]])
-            elif q == "boundary_edges":
-                s.append([q])
-            elif q == "is_vertex_on_border":
-                s.append([q, rv()])
-            elif q == "in_face_index":
-                s.append([q, f, rv()])
-            elif q == "is_triangular":
-                s.append([q])
-            elif q == "ith_vertex_of_face":
-                s.append([q, f, rng.randrange(len(F))])
-    elif case["edges"]:
-        for _ in range(4):
-            q = rng.choice(["vertex_to_vertices", "edge_id", "vertex_to_edges"])
-            if q == "edge_id":
-                e = rng.choice(case["edges"])
-                s.append([q, e[0], e[1]])
-            else:
-                s.append(["sorted", q, rv()])
-    return s
